@@ -73,6 +73,38 @@ mod verif_c10 {
         kani::cover!(v == u64::MAX, "u64::MAX");
     }
 
+
+    // (d) the archived form: serialise with rkyv, view the archive, cast back
+    #[cfg(feature = "rkyv")]
+    #[kani::proof]
+    #[kani::unwind(10)]
+    fn c10_archive_roundtrip() {
+        use rkyv::ser::serializers::AlignedSerializer;
+        use rkyv::ser::Serializer;
+        use rkyv::AlignedVec;
+        let (s, f, c, n) = any_fields();
+        let ts = HLCTimestamp::new(Duration::new(s as u64, f as u32 * 4_000_000), c, n);
+        let mut ser = AlignedSerializer::new(AlignedVec::new());
+        match ser.serialize_value(&ts) {
+            Ok(_) => {},
+            Err(_) => {
+                assert!(false, "serialising a timestamp cannot fail");
+                return;
+            },
+        }
+        let bytes = ser.into_inner();
+        assert!(bytes.len() == 8, "the archive of a timestamp is its 8-byte packed form");
+        let archived = unsafe { rkyv::archived_root::<HLCTimestamp>(&bytes[..]) };
+        assert!(archived.cast() == ts, "archived form casts back to the same timestamp");
+        assert!(archived.cast().as_u64() == ts.as_u64());
+        // little-endian packed u64 (feature archive_le)
+        let mut raw = [0u8; 8];
+        raw.copy_from_slice(&bytes[..]);
+        assert!(u64::from_le_bytes(raw) == ts.as_u64());
+        kani::cover!(n == 255 && c == 0xFFFF, "extreme fields archived");
+        std::mem::forget(bytes);
+    }
+
     // ------------------------------------------------------------------ parsing
     //
     // The numeric kernel of from_str, driven through the real splitn on a concrete 4-field
